@@ -237,6 +237,11 @@ class FileInfo:
 
         if self.arch_len:
             self.arch_index = arch_index
+            if arch_index is None:
+                # Stored after the directory tree, written out by write_dirfile().
+                self.offset = len(self.vpk.footer_data)
+                self.vpk.footer_data += arch_data
+                return
             arch_file = get_arch_filename(prefix, arch_index)
             with open(os.path.join(self.vpk.folder, arch_file), 'ab') as file:
                 self.offset = file.seek(0, os.SEEK_END)
